@@ -2,7 +2,7 @@
    SpecMono.v, SpecWf.v). *)
 From Coq Require Import List NArith ZArith.
 Import ListNotations.
-From PP Require Import Base Syntax Spec SpecMono SpecLaws SpecWf.
+From PP Require Import Base Syntax Spec SpecMono SpecLaws SpecWf Interp InterpProof.
 
 (* the semantics is a function: one result per (grammar, context, expression, state) *)
 Theorem C03_deterministic : forall g c t s r1 r2, runs g c t s r1 -> runs g c t s r2 -> r1 = r2.
@@ -73,6 +73,28 @@ Example balanced_rejects :
   parse g_bal 40 5 [40; 40; 41]%N 0 = Fail {| t_pos := 3; t_exp := [5%N]; t_unexp := [] |}.
 Proof. vm_compute. reflexivity. Qed.
 
+(* ---- the interpreter itself (model Interp.v of src/pest/grammar/**.parse + state.py, tied to mode I
+   on every run: trees, failure positions and expected sets) REFINES the reference semantics:
+   whenever it finishes, the reference semantics has the same outcome — same tree, same final
+   position / stack / tags, same furthest-failure record, same "undefined rule" — it never
+   reaches an inconsistent state (pop of an empty checkpoint or rule stack), and it returns with
+   every checkpoint, saved atomic depth and rule frame released. Hypothesis: a silent rule is
+   not `$` or `!` (grammar text allows one modifier per rule; necessity: InterpProof.
+   silent_compound_differs). Proof: InterpProof.v (simulation by induction on fuel). *)
+Theorem C03_interpreter_refines_semantics : forall g,
+  (forall n r, lookup g n = Some r -> r_silent r = true -> r_kind r = KNormal \/ r_kind r = KAtomic) ->
+  forall f rule input k,
+    match iparse g f rule input k with
+    | IOk true s' ps  => (exists f', parse g f' rule input k = Ok (abs_st s') ps)
+                         /\ i_saved s' = [] /\ i_dcps s' = [] /\ i_rules s' = [] /\ i_depth s' = 0
+    | IOk false s' _  => (exists f', parse g f' rule input k = Fail (i_trk s'))
+                         /\ i_saved s' = [] /\ i_dcps s' = [] /\ i_rules s' = []
+    | IUndef          => exists f', parse g f' rule input k = Err
+    | ICrash          => False
+    | IFuel           => True
+    end.
+Proof. exact iparse_refines_one_modifier. Qed.
+
 Print Assumptions C03_deterministic.
 Print Assumptions C03_choice_commits.
 Print Assumptions C03_choice_backtracks.
@@ -85,3 +107,4 @@ Print Assumptions C03_minmax_unrolled.
 Print Assumptions C03_and_consumes_nothing.
 Print Assumptions C03_not_consumes_nothing.
 Print Assumptions C03_one_pair_per_rule.
+Print Assumptions C03_interpreter_refines_semantics.
